@@ -292,7 +292,8 @@ pub fn obs_mv(b: &ChessBoard, m: &BoardMove) -> String {
             .unwrap_or(false);
             let s2 = catch(|| unsafe { before.make_move_unchecked(m) } == nb).unwrap_or(false);
             let s3 = catch(|| *b == before).unwrap_or(false) && pre.is_some() && raw(b) == pre;
-            format!("r=ok {} same={}", posobs(&nb), (s1 && s2 && s3) as u8)
+            // C03 on the successor OBJECT returned by make_move (a stale cached flag shows only there, not on a rebuilt board)
+            format!("r=ok {} same={} sc03={}", posobs(&nb), (s1 && s2 && s3) as u8, near_universe_diff(&nb))
         }
         Some(Err(LibChessError::IllegalMoveDetected)) => {
             let s = catch(|| {
